@@ -755,6 +755,12 @@ class SVG:
         defs = etree.Element(f"{{{svgns()}}}defs", nsmap=self.svg_root.nsmap)
         self.svg_root.insert(0, defs)
 
+        # inline href templates while every gradient is still as written: below, gradients
+        # get rewritten (translation folded into coordinates) in traversal order, and a
+        # gradient must not inherit from a template that has already been rewritten
+        for gradient_el in self._select_gradients():
+            self._apply_gradient_template(gradient_el)
+
         for context in to_process:
             if "clipPath" in context.path:
                 _safe_remove(context.element)
